@@ -456,8 +456,14 @@ def gen_world(rnd, valid_only=None):
 DIAG_RE = re.compile(r"^error: (.*)\n\s*--> at (.*):(\d+):(\d+)$", re.M)
 
 
-def run_world(bx, spec, world, want_run=True):
-    model, reachable, rejected, edges, chains = materialise(bx, spec)
+def run_world(bx, spec, world, want_run=True, keep_tree=False):
+    if keep_tree:
+        # the tree (and whatever an earlier build left in out/) stays as it is
+        model = Model(spec)
+        reachable, rejected, edges = model.analyse()
+        chains = [c for c in spec["chains"] if model.chain_value(edges, c) is not None]
+    else:
+        model, reachable, rejected, edges, chains = materialise(bx, spec)
     # the module directory may be handed to the compiler in any spelling
     sp = spec.get("mod_dir_spelling", "abs")
     mod_dir = {"abs": bx.mods, "rel": "../" + MODS, "rel_slash": "../" + MODS + "/",
@@ -635,6 +641,16 @@ def task(t):
         w = faulted_world(rnd, n)
     expected, obs = run_world(bx, spec, w)
     bad = judge(expected, obs, faulted=(mode == "fault"))
+    recovered = None
+    if mode == "fault" and not bad:
+        # once the faults stop: the same tree, with whatever the faulted build left behind in
+        # out/, built again without faults must come out exactly as the model says
+        expected2, obs2 = run_world(bx, spec, boxmod.world(), keep_tree=True)
+        bad2 = judge(expected2, obs2, faulted=False)
+        recovered = not bad2
+        if bad2:
+            bad = [("after-fault-" + c, d) for c, d in bad2]
+            expected, obs, w = expected2, obs2, dict(w, then_fault_free_rebuild=True)
     crashed_under_fault = mode == "fault" and obs["compile_exit"] not in (0, 1)
     kinds = sorted(set(k for v in expected["rejected"].values() for k in v[1]))
     reject_first = sorted(set(v[1][0] for v in expected["rejected"].values()))
@@ -650,6 +666,7 @@ def task(t):
         "unreachable_opened": len([p for p in obs["opens"] if p not in expected["reachable"]]),
         "fired": obs["fired"],
         "crashed_under_fault": crashed_under_fault,
+        "recovered_after_fault": recovered,
         "has_cycle": has_cycle(spec),
         "self_import": any(Model(spec).resolve(f, i)[0] == f for f in spec["files"] for i in spec["files"][f]["imports"]),
         "spellings": len(set(i["arg"] for f in spec["files"].values() for i in f["imports"])),
@@ -696,11 +713,18 @@ def minimise(spec, world, cls, faulted, budget=80):
     bx = common.worker_box()
     trials = [0]
 
+    two_step = bool(world.get("then_fault_free_rebuild"))
+    first = {k: v for k, v in world.items() if k != "then_fault_free_rebuild"}
+
     def fails(s):
         if trials[0] >= budget:
             return False
         trials[0] += 1
         s = json.loads(json.dumps(s))
+        if two_step:
+            run_world(bx, s, first)
+            expected, obs = run_world(bx, s, boxmod.world(), keep_tree=True)
+            return any("after-fault-" + c == cls for c, _ in judge(expected, obs, False))
         expected, obs = run_world(bx, s, world)
         return any(c == cls for c, _ in judge(expected, obs, faulted))
 
@@ -740,8 +764,14 @@ def replay(path):
     bx = common.worker_box()
     spec = doc["spec"]
     faulted = bool(doc["world"].get("faults"))
-    expected, obs = run_world(bx, spec, doc["world"])
-    bad = judge(expected, obs, faulted)
+    if doc["world"].get("then_fault_free_rebuild"):
+        first = {k: v for k, v in doc["world"].items() if k != "then_fault_free_rebuild"}
+        run_world(bx, spec, first)
+        expected, obs = run_world(bx, spec, boxmod.world(), keep_tree=True)
+        bad = [("after-fault-" + c, d) for c, d in judge(expected, obs, False)]
+    else:
+        expected, obs = run_world(bx, spec, doc["world"])
+        bad = judge(expected, obs, faulted)
     print("expected: rejected=%s output=%r" % (sorted(expected["rejected"]), expected["output"]))
     print("observed: exit=%s diags=%s run=%r/%r" % (
         obs["compile_exit"], [(m, l) for m, _, l in obs["diags"]], obs["run_stdout"], obs["run_exit"]))
@@ -810,6 +840,9 @@ def main(tier, seed, replay_path=None):
         m["accepted"] += 1 if r["accepted"] else 0
         m["with_rejected_imports"] += 1 if r["rejected"] else 0
         m["crashed_under_fault"] += 1 if r["crashed_under_fault"] else 0
+        if r.get("recovered_after_fault") is not None:
+            m["fault_free_rebuilds_after_fault"] = m.get("fault_free_rebuilds_after_fault", 0) + 1
+            m["of_which_agree_with_model"] = m.get("of_which_agree_with_model", 0) + (1 if r["recovered_after_fault"] else 0)
         for k, v in r["fired"].items():
             fired[k] = fired.get(k, 0) + v
         for k in r["kinds"]:
